@@ -10,7 +10,15 @@ import (
 	"context"
 
 	"k8s.io/client-go/kubernetes"
+
+	proxyv1alpha1 "github.com/kubewharf/kubegateway/pkg/apis/proxy/v1alpha1"
 )
+
+// VerifC12SetDispatchPolicies stores dispatch policies the way the last statement of ClusterInfo.Sync does (a full Sync
+// would also start the flow-control meters, two goroutines per cluster that outlive the cluster).
+func VerifC12SetDispatchPolicies(c *ClusterInfo, p []proxyv1alpha1.DispatchPolicy) {
+	c.currentDispatchPolicies.Store(p)
+}
 
 func VerifC12AddEndpoint(c *ClusterInfo, name string, cs kubernetes.Interface, healthy, disabled bool) *EndpointInfo {
 	ctx, cancel := context.WithCancel(c.Context())
